@@ -132,6 +132,9 @@ def session(sess, suite, n, t, kind):
     # explicit randomizers, zero included (deprecated entry point `sign` with a Randomizer)
     for alpha in (0, fld.rand(rng)):
         ah = fld.enc(alpha)
+        # the explicit randomizer travels from the coordinator to the signers as bytes: zero included
+        tr = sess.call("prim %s t=randomizer b=%s" % (suite, ah), EXACT, "randomizer-bytes")
+        sess.oracle(tr.ok and tr["re"] == ah, "the explicit randomizer %s does not survive Randomizer::serialize / deserialize (%s)" % ("ZERO" if alpha == 0 else "", tr.raw[:70]), [sess.records[-1][0]])
         zr = {}
         good = True
         for i in signers:
